@@ -1994,7 +1994,19 @@ func (ls *LState) Status(th *LState) string {
 
 func (ls *LState) Resume(th *LState, fn *LFunction, args ...LValue) (ResumeState, error, []LValue) {
 	isstarted := th.isStarted()
+	if !isstarted && th.resumed && !th.Dead && ls.G.CurrentThread != th {
+		// the body ended with `return coroutine.yield(...)`: the values given
+		// to this resume are the results of that yield and so the results of
+		// the body, which thereby finishes
+		th.kill()
+		ret := append([]LValue{}, args...)
+		if len(ret) == 0 {
+			ret = append(ret, LNil)
+		}
+		return ResumeOK, nil, ret
+	}
 	if !isstarted {
+		th.resumed = true
 		base := 0
 		th.stack.Push(callFrame{
 			Fn:         fn,
@@ -2046,9 +2058,10 @@ func (ls *LState) Resume(th *LState, fn *LFunction, args ...LValue) (ResumeState
 
 	if haserror {
 		return ResumeError, newApiError(ApiErrorRun, ret[0]), nil
-	} else if th.stack.IsEmpty() {
+	} else if th.Dead {
 		return ResumeOK, nil, ret
 	}
+	// also when the call stack is empty: the body yielded in tail position
 	return ResumeYield, nil, ret
 }
 
